@@ -783,7 +783,7 @@ class Gen:
                 members.append("%s%s(%s) %s" % (st, mname, ptext, body))
             elif mk < 8:
                 self.use("class_getter")
-                members.append("%sget %s() { print('get'); return %s }" % (st, mname, r.choice(["this.a", "1", "typeof this"])))
+                members.append("%sget %s() { print('get'); return %s }" % (st, mname, r.choice(["this.b" if mname == "a" else "this.a", "1", "typeof this"])))   # never the getter's own name: unbounded recursion
             elif mk == 8:
                 self.use("class_setter")
                 members.append("%sset %s(v) { print('set', v) }" % (st, mname))
